@@ -555,6 +555,14 @@ def run_sim(rep, rng, drv, tier, simulation):
             bad("generators in identical states end in different states")
         if g1.bit_generator.state == state0:
             bad("the supplied generator was not advanced (it is not the source of the samples)")
+        if len(meta) % 3 == 0:
+            # ... and a generator in a different state gives different samples (64-bit uniforms never coincide by chance)
+            with warnings.catch_warnings():
+                warnings.simplefilter("ignore")
+                r3 = simulation.Simulation.run(nt, ns, nd, func, s["bounds"], generator=np.random.default_rng(s["seed"] + 1))
+            rep.count("sim_different_state_checks")
+            if np.array_equal(r3.xss, r1.xss):
+                bad("generators in different states give identical samples (the supplied generator is not the source of the samples)")
         # ---- running maximum: the exact model
         if np.any(np.isnan(r1.yss)):
             bad("yss contains nan")
